@@ -139,15 +139,44 @@ Proof.
   - apply N.max_lub_lt; apply N.log2_lt_pow2; lia.
 Qed.
 
-(* the info area has the declared length, and HAS_INFO is not passed without an info *)
+Lemma land_lt_pow2 : forall a b n, a < 2^n -> N.land a b < 2^n.
+Proof.
+  intros a b n Ha.
+  destruct (N.eq_dec (N.land a b) 0) as [E|E]; [rewrite E; apply N.neq_0_lt_0, N.pow_nonzero; lia|].
+  assert (Ha0 : a <> 0) by (intros ->; rewrite N.land_0_l in E; contradiction).
+  apply N.log2_lt_pow2; [lia|].
+  pose proof (N.log2_land a b) as Hl.
+  assert (N.log2 a < n) by (apply N.log2_lt_pow2; lia). lia.
+Qed.
+
+(* the info area has the declared length (whatever flags the caller passes) *)
 Definition call_ok (il : list N) (c : call) : Prop :=
   match c_info c with
   | Some bs => length bs = N.to_nat (ilen_of il (c_key c mod 65536))
-  | None => N.testbit (c_flags c) 0 = false
+  | None => True
   end.
 Lemma log_event_ok : forall il c ts, call_ok il c -> ev_ok il (log_event c ts).
 Proof.
   intros il c ts Hc. unfold ev_ok, log_event, call_ok in *.
+  cbn [e_key e_flags e_tp e_id e_ts e_info].
+  repeat apply conj; try (apply N.mod_lt; discriminate).
+  - change 65536 with (2 ^ 16). apply lor_lt_pow2.
+    + destruct (c_info c); cbn; lia.
+    + apply land_lt_pow2. apply N.mod_lt. discriminate.
+  - destruct (c_info c) as [bs|].
+    + split; [|exact Hc]. rewrite N.lor_spec. reflexivity.
+    + rewrite N.lor_spec, N.land_spec. cbn [N.testbit]. rewrite Bool.andb_false_r. reflexivity.
+Qed.
+
+(* before the repair the flag had to be part of the precondition *)
+Definition call_ok_prefix (il : list N) (c : call) : Prop :=
+  match c_info c with
+  | Some bs => length bs = N.to_nat (ilen_of il (c_key c mod 65536))
+  | None => N.testbit (c_flags c) 0 = false
+  end.
+Lemma log_event_prefix_ok : forall il c ts, call_ok_prefix il c -> ev_ok il (log_event_prefix c ts).
+Proof.
+  intros il c ts Hc. unfold ev_ok, log_event_prefix, call_ok_prefix in *.
   cbn [e_key e_flags e_tp e_id e_ts e_info].
   repeat apply conj; try (apply N.mod_lt; discriminate).
   - change 65536 with (2 ^ 16). apply lor_lt_pow2.
